@@ -165,7 +165,8 @@ fn run_vlq_sweep(_r: &mut Rng, n: u64) {
             let mut buf = String::new();
             let mut v = from; while v <= to { buf.clear();
                 let ok = match vlq::generate_vlq_segment(&[v]) { Ok(s) => { buf.push_str(&s); matches!(vlq::parse_vlq_segment(&buf), Ok(ref p) if p.len() == 1 && p[0] == v) } Err(_) => false };
-                if !ok { if bad == 0 { first = v; } bad += 1; } v += 1; }
+                if !ok { if bad == 0 { first = v; } bad += 1; } v += 1;
+                if v & 0xfffff == 0 { PROGRESS.fetch_add(1, std::sync::atomic::Ordering::Relaxed); } }   // the sweep is one long case: tell the watchdog it is alive
             out.push((from, to, bad, first)); } out })).collect(); hs.into_iter().flat_map(|h| h.join().unwrap()).collect() });
     let mut results = results; results.sort();
     for (from, to, bad, first) in results { outln!("s{}\tvlq_sweep\t{}\t{}\t{}\t{}", from, from, to, bad, first); }
@@ -1470,7 +1471,7 @@ fn start_watchdog(budget_ms: u64) {
 }
 fn main() {
     std::panic::set_hook(Box::new(|_| {}));
-    start_watchdog(std::env::var("CASE_BUDGET_MS").ok().and_then(|x| x.parse().ok()).unwrap_or(20_000));
+    start_watchdog(std::env::var("CASE_BUDGET_MS").ok().and_then(|x| x.parse().ok()).unwrap_or(60_000));   // generous: a loaded machine must not look like a hang
     let args: Vec<String> = std::env::args().collect();
     let prop = args.get(1).map(|s| s.as_str()).unwrap_or("C11");
     let seed: u64 = args.get(2).and_then(|s| s.parse().ok()).unwrap_or(1);
